@@ -101,30 +101,39 @@ class StepMeter:
     count = 0
     limit = 0
     active = False
+    allowance = None  # optional callable -> absolute limit justified by the work done so far (bytes delivered)
+
+    @classmethod
+    def _over(cls) -> bool:
+        """Budget reached: extend it if the allowance function justifies more, else report a breach."""
+        if cls.allowance is not None:
+            new = cls.allowance()
+            if new > cls.count:
+                cls.limit = new
+                return False
+        cls.limit = 1 << 62  # raise once
+        return True
 
     @classmethod
     def _cb(cls, code, line):
         cls.count += 1
-        if cls.count > cls.limit:
-            cls.limit = 1 << 62  # raise once
+        if cls.count > cls.limit and cls._over():
             raise BudgetExceeded(f"step budget exceeded at {code.co_filename}:{line}")
 
     @classmethod
     def _cb_jump(cls, code, src, dst):
         cls.count += 1
-        if cls.count > cls.limit:
-            cls.limit = 1 << 62
+        if cls.count > cls.limit and cls._over():
             raise BudgetExceeded(f"loop budget exceeded in {code.co_filename}:{code.co_name}")
 
     @classmethod
     def _cb_start(cls, code, off):
         cls.count += 1
-        if cls.count > cls.limit:
-            cls.limit = 1 << 62
+        if cls.count > cls.limit and cls._over():
             raise BudgetExceeded(f"call budget exceeded in {code.co_filename}:{code.co_name}")
 
     @classmethod
-    def start(cls, limit: int, mode: str = "line"):
+    def start(cls, limit: int, mode: str = "line", allowance=None):
         """mode 'line': every executed line (C11 budgets). mode 'loop': backward/unconditional jumps and
         function entries only - a much cheaper counter that still bounds every Python loop and recursion."""
         if not cls._installed:
@@ -138,6 +147,7 @@ class StepMeter:
             cls._installed = True
         cls.count = 0
         cls.limit = limit
+        cls.allowance = allowance
         cls.active = True
         if mode == "line":
             _mon.set_events(_TOOL, _mon.events.LINE)
@@ -154,13 +164,14 @@ class StepMeter:
 class metered:
     """Context manager: `with metered(limit) as m: ...; m.steps`."""
 
-    def __init__(self, limit: int, mode: str = "line"):
+    def __init__(self, limit: int, mode: str = "line", allowance=None):
         self.limit = limit
         self.mode = mode
+        self.allowance = allowance
         self.steps = 0
 
     def __enter__(self):
-        StepMeter.start(self.limit, self.mode)
+        StepMeter.start(self.limit, self.mode, self.allowance)
         return self
 
     def __exit__(self, et, ev, tb):
